@@ -244,6 +244,10 @@ class Gen:
             if kind == "typeddict" and self.rnd.random() < 0.3 and t.kind not in ("none", "optional", "any", "union"):
                 # Optional keys of a TypedDict: what exclude_none can omit
                 f["ty"] = Node("optional", ["union", [t.lean, ["none"]]], f"Optional[{t.py}]", [t])
+            if f["ty"].kind == "optional" and self.rnd.random() < 0.25:
+                # Optional[...] behind an annotation: still an Optional for the omission rules
+                o = f["ty"]
+                f["ty"] = Node("optional", ["ann", {}, o.lean], f"Annotated[{o.py}, 'doc']", o.kids)
             if kind == "dataclass":
                 if self.rnd.random() < 0.3: f["alias"] = nm.upper() + "_al"
                 if not req and self.rnd.random() < 0.25: f["fbod"] = True
@@ -543,6 +547,8 @@ class Gen:
 
 def py_proto(d):
     """Python datum -> protocol term"""
+    import enum
+    if isinstance(d, enum.Enum) and isinstance(d, (int, str)): d = d.value      # a member of an Enum with an int / str mixin *is* that int / str
     if d is None: return ["n"]
     if isinstance(d, bool): return ["b", d]
     if isinstance(d, int): return ["i", str(d)]
